@@ -71,6 +71,19 @@ theorem forEachCollect_total {α} (f : α → M Unit) : ∀ xs : List α, Total 
     intro rest
     exact Total.pure _
 
+theorem ensureRoot_total (cfg : Cfg) (p : Path) (i : Info) : Total (ensureRoot cfg p i) := by
+  unfold ensureRoot
+  apply Total.bind (Total.attempt _)
+  intro r
+  cases r with
+  | error e => exact Total.pure _
+  | ok o => cases o with
+    | some _ => exact Total.pure _
+    | none =>
+      apply Total.bind (Total.attempt _)
+      intro r2
+      cases r2 <;> exact Total.pure _
+
 theorem classify_total (cfg : Cfg) : ∀ (l : List (Path × Option Info)) (pl : RollbackPlan),
     Total (classify cfg l pl)
   | [], pl => Total.pure pl
@@ -86,7 +99,9 @@ theorem classify_total (cfg : Cfg) : ∀ (l : List (Path × Option Info)) (pl : 
   | (p, some i) :: rest, pl => by
     unfold classify
     split
-    · exact classify_total cfg rest _
+    · apply Total.bind (ensureRoot_total cfg p i)
+      intro f
+      exact classify_total cfg rest _
     · cases i.kind <;> exact classify_total cfg rest _
 
 theorem removeBackupPaths_total (cfg : Cfg) (ps : List Path) : Total (removeBackupPaths cfg ps) :=
